@@ -16,9 +16,11 @@ import (
 
 // reviewed exceptions: obligations the provers cannot reach; each is one named construct
 // with a one-line reason.  They are counted separately and are NOT covered by the claim.
-var reviewedExceptions = map[string]string{
-	"G2|(*journal.Trip).update|slice trip.StopTimes[:len(p.past)+len(p.updated)]": "partition invariant of createPartition: past = stopTimes[:first] and updated holds pointers to distinct elements of stopTimes[first:], so len(past)+len(updated) <= len(stopTimes); an invariant relating two slices and a count, beyond E2",
-}
+// The one reviewed exception is recognised by its construct, not by the names in it: the journal's list trimmed to
+// len(prefix)+len(aligned pairs) of the partition just computed from that same list.
+var reviewedExceptions = map[string]string{}
+
+const partitionTrimReason = "partition invariant of createPartition: prefix = stopTimes[:first] and the aligned pairs hold pointers to distinct elements of stopTimes[first:], so len(prefix)+len(pairs) <= len(stopTimes); an invariant relating two slices and a count, beyond E2"
 
 func (c *Ctx) applyException(o *Obligation) {
 	if o.Status == Proved {
@@ -27,6 +29,71 @@ func (c *Ctx) applyException(o *Obligation) {
 	if why, ok := reviewedExceptions[o.Key()]; ok {
 		o.Exception = why
 	}
+}
+
+// partitionTrimException: sl is X.StopTimes[:len(P.prefix)+len(P.pairs)] where P is the value returned by the
+// partition function called on (a load of) the very same X.StopTimes, in a function that does not store to
+// X.StopTimes between that call and the trim.
+func (c *Ctx) partitionTrimException(sl *ssa.Slice) bool {
+	cp := c.P.Func("journal:createPartition")
+	if cp == nil {
+		cp = c.resolveByShape("journal:createPartition")
+	}
+	if cp == nil {
+		return false
+	}
+	ps := partitionShapeOf(cp)
+	if ps == nil || !isPartitionTrim(sl, ps) {
+		return false
+	}
+	ld, ok := sl.X.(*ssa.UnOp)
+	if !ok || !strings.HasSuffix(canon(ld.X), ".StopTimes") {
+		return false
+	}
+	// the partition whose lengths are used: a local holding the result of cp(<load of the same cell>, ...)
+	add := sl.High.(*ssa.BinOp)
+	lx, _ := lenOf(add.X)
+	var call *ssa.Call
+	if f, ok := lx.(*ssa.Field); ok {
+		if cl, ok := f.X.(*ssa.Call); ok && staticCallee(cl) == cp {
+			call = cl
+		}
+	}
+	if l2, ok := lx.(*ssa.UnOp); ok {
+		if fa, ok := l2.X.(*ssa.FieldAddr); ok {
+			if a, ok := fa.X.(*ssa.Alloc); ok {
+				for _, sv := range cellStores(a) {
+					if cl, ok := sv.(*ssa.Call); ok && staticCallee(cl) == cp {
+						if call != nil {
+							return false
+						}
+						call = cl
+					}
+				}
+			}
+		}
+	}
+	if call == nil || call.Parent() != sl.Parent() || !instrBefore(call, sl) {
+		return false
+	}
+	arg, ok := call.Call.Args[0].(*ssa.UnOp)
+	if !ok || canon(arg.X) != canon(ld.X) {
+		return false
+	}
+	// no store to the list between the call and the trim
+	for _, b := range sl.Parent().Blocks {
+		for _, in := range b.Instrs {
+			if st, ok := in.(*ssa.Store); ok && canon(st.Addr) == canon(ld.X) {
+				if !instrBefore(sl, st) && !(st.Block() == sl.Block() && false) {
+					// a store that is not after the trim: must be before the call
+					if !instrBefore(st, call) {
+						return false
+					}
+				}
+			}
+		}
+	}
+	return true
 }
 
 func derefDescr(v ssa.Value) string {
@@ -169,7 +236,7 @@ func checkTypeAssert(c *Ctx, e *nilEngine, f *ssa.Function, x *ssa.TypeAssert, s
 func checkPanic(c *Ctx, e *nilEngine, f *ssa.Function, x *ssa.Panic) {
 	p := c.P
 	// the hasher's panic on binary.Write failure is discharged by G15 (fixed-size arguments)
-	if f.String() == "(*"+modPath+".hasher).number" {
+	if c.hashShapeOfQuiet().prims[f] == "number" && panicOnlyOnBinaryWriteError(x) {
 		c.Proved("G3", shortName(f), "panic", p.ipos(x), "reachable only if binary.Write fails; excluded by G15 (every argument of number() has a fixed size)")
 		return
 	}
@@ -288,8 +355,11 @@ func missingColumnsTest(ce condEdge, file ssa.Value) *ssa.Call {
 		if !ok || len(call.Call.Args) == 0 || call.Call.Args[0] != file {
 			return nil
 		}
-		switch calleeName(call) {
-		case "(*" + modPath + "/csv.File).MissingRequiredColumns", modPath + ".checkForMissingColumns":
+		if calleeName(call) == "(*"+modPath+"/csv.File).MissingRequiredColumns" {
+			return call
+		}
+		// the library's wrapper that turns the missing columns into warnings (whatever it is called)
+		if cal := call.Call.StaticCallee(); cal != nil && cal.Parent() == nil && fnPkgPath(cal) == modPath && sigClass(cal) == "(*csv.File)→([]warnings.StaticWarning)" {
 			return call
 		}
 		return nil
@@ -326,15 +396,7 @@ func csvSideObligations(c *Ctx) {
 	p := c.P
 	var nextRow *ssa.Function = c.anchor("csv:(*File).NextRow")
 	// the File's fields by role (their names are free): the current row (*row), the header index (map[string]int)
-	curRow, hdrMap := "currentRow", "headerMap"
-	if nextRow != nil {
-		if f := fieldOfType(nextRow.Params[0].Type(), "*csv.row"); f != "" {
-			curRow = f
-		}
-		if f := fieldOfType(nextRow.Params[0].Type(), "map[string]int"); f != "" {
-			hdrMap = f
-		}
-	}
+	curRow, hdrMap := c.csvRoleNames().curRow, c.csvRoleNames().hdrMap
 	var writers []string
 	for _, fn := range p.ModFns {
 		for _, b := range fn.Blocks {
@@ -488,4 +550,21 @@ func csvSideObligations(c *Ctx) {
 		ok = ok && n > 0
 		c.Check(ok, "CSV", shortName(f), "headerMap maps each header to its position in the first record", p.pos(f.Pos()), "headerMap[firstRow[i]] = i for the range index i over the first record", "headerMap is not filled with the position of each header cell in the first record")
 	}
+}
+
+// panicOnlyOnBinaryWriteError: the panic is reached only on the err != nil edge of an encoding/binary.Write call.
+func panicOnlyOnBinaryWriteError(x *ssa.Panic) bool {
+	for _, ce := range dominatingConds(x.Block()) {
+		bo, ok := ce.Cond.(*ssa.BinOp)
+		if !ok || !isNilConst(bo.Y) {
+			continue
+		}
+		if !((bo.Op == token.NEQ && ce.Val) || (bo.Op == token.EQL && !ce.Val)) {
+			continue
+		}
+		if call, ok := bo.X.(*ssa.Call); ok && calleeName(call) == "encoding/binary.Write" {
+			return true
+		}
+	}
+	return false
 }
